@@ -277,6 +277,40 @@ impl FaultSys {
                 }
             }
         }
+        // the default temp directory (no set_tmpdir): $TMPDIR points to a missing directory, the build must report
+        // the I/O error; $TMPDIR is repaired, the retry in the same process must succeed
+        if c.kind == FaultKind::Tmpdir && model.len() > c.faulted.split_after.unwrap_or(c.dim) {
+            let saved = std::env::var_os("TMPDIR");
+            std::env::set_var("TMPDIR", tmp.join("missing-default-tmpdir"));
+            let mut wtxn = s.env.write_txn().unwrap();
+            let r = crate::common::catch(|| with_metric!(c.metric, D => run_build::<D>(s.db, &mut wtxn, 0, c.dim, &c.faulted, None, None)));
+            w.count("faulted_builds", 1);
+            let verdict: Result<(), (String, String)> = match r {
+                Err(p) => Err((format!("E/build-panicked:{}", p.site()), format!("$TMPDIR missing: the build panicked at {}: {}", p.location, p.message))),
+                Ok((Ok(()), _)) => Err(("E/tmpdir-ignored".into(), format!("$TMPDIR points to a missing directory and no temp directory is configured: the build succeeded with {} items", model.len()))),
+                Ok((Err(e), _)) => match ErrKind::of(&e) {
+                    ErrKind::Io(_) | ErrKind::HeedIo(_) => Ok(()),
+                    other => Err((format!("E/wrong-error:{}", other.tag()), format!("$TMPDIR missing: the build returned {e}"))),
+                },
+            };
+            wtxn.abort();
+            std::env::set_var("TMPDIR", tmp);
+            let retry = if verdict.is_ok() {
+                let mut wtxn = s.env.write_txn().unwrap();
+                let (r, _) = with_metric!(c.metric, D => run_build::<D>(s.db, &mut wtxn, 0, c.dim, &c.faulted, None, None));
+                let out = r.map_err(|e| ("E/retry-failed:default-tmpdir".to_string(), format!("$TMPDIR repaired after a failed build: the retry in the same process returned {e}")));
+                wtxn.abort();
+                out
+            } else {
+                Ok(())
+            };
+            match saved {
+                Some(v) => std::env::set_var("TMPDIR", v),
+                None => std::env::remove_var("TMPDIR"),
+            }
+            verdict?;
+            retry?;
+        }
         // retry without the fault
         let mut wtxn = s.env.write_txn().unwrap();
         let (r, _) = with_metric!(c.metric, D => run_build::<D>(s.db, &mut wtxn, 0, c.dim, &c.faulted, Some(tmp), None));
@@ -458,8 +492,10 @@ fn map_sizes(report: &mut Report, tier: Tier) {
             .chain((n1..n1 + n2).map(|i| Action::Add { index: 0, id: i as u32, vec: vecf(i) }))
             .chain([Action::Build { index: 0, opts: opts.clone() }])
             .collect();
+        // a third transaction without any item operation: the forest shrinks from 3 trees to 1 (two whole trees are deleted)
+        let txn3: Vec<Action> = vec![Action::Build { index: 0, opts: BuildOpts { n_trees: Some(1), ..opts.clone() } }];
         let mut failed: Option<(usize, String, Vec<Action>)> = None; // (txn, failing call, actions of the failed txn)
-        'txns: for (ti, acts) in [txn1, txn2].into_iter().enumerate() {
+        'txns: for (ti, acts) in [txn1, txn2, txn3].into_iter().enumerate() {
             let committed_model = model.clone();
             let mut wtxn = match s.env.write_txn() {
                 Ok(w) => w,
